@@ -144,9 +144,9 @@ func cmdCheck(args []string) {
 		seed, _ = strconv.Atoi(s)
 	}
 	t0 := time.Now()
-	timeout := 60000
+	timeout := 90000
 	if *tier == "thorough" {
-		timeout = 120000
+		timeout = 240000
 	}
 	p, err := loadProgram(*repo)
 	if err != nil {
